@@ -991,8 +991,11 @@ class Parser:
         """Parse postfix expression (member access, calls, postfix ++/--)."""
         return self._parse_postfix_suffixes(self._parse_new_expression())
 
-    def _parse_postfix_suffixes(self, expr: Node) -> Node:
-        """Apply member accesses, calls and postfix ++/-- that follow expr."""
+    def _parse_postfix_suffixes(self, expr: Node, members_only: bool = False) -> Node:
+        """Apply member accesses, calls and postfix ++/-- that follow expr.
+
+        With members_only just the member accesses: the callee of `new`.
+        """
         while True:
             if self._match(TokenType.DOT):
                 # Member access: a.b (keywords allowed as property names)
@@ -1013,6 +1016,8 @@ class Parser:
                 prop = self._parse_expression()
                 self._expect(TokenType.RBRACKET, "Expected ']' after index")
                 expr = MemberExpression(expr, prop, computed=True)
+            elif members_only:
+                break
             elif self._match(TokenType.LPAREN):
                 # Function call: f(args)
                 args = self._parse_arguments()
@@ -1031,7 +1036,10 @@ class Parser:
     def _parse_new_expression(self) -> Node:
         """Parse new expression."""
         if self._match(TokenType.NEW):
-            callee = self._parse_new_expression()
+            # new a.b.c(x) constructs a.b.c: the callee is a member expression
+            callee = self._parse_postfix_suffixes(
+                self._parse_new_expression(), members_only=True
+            )
             args: List[Node] = []
             if self._match(TokenType.LPAREN):
                 args = self._parse_arguments()
